@@ -344,6 +344,17 @@ def known_match(known, sig):
     return None
 
 
+def write_history_twice(path, history):
+    """The failing history, executed twice in one fresh process: a failure that needs library-internal
+    state left behind by earlier calls (pools, reused buffers) shows on the second pass."""
+    with open(path, "w") as f:
+        for _ in range(2):
+            for i, e in enumerate(history):
+                e = dict(e)
+                e["first"] = i == 0
+                f.write(json.dumps(e) + "\n")
+
+
 def confirm(ctx, failure, trace_module, sigfn):
     """Re-execute the failing history on a fresh process and re-validate it with TLC."""
     if failure["kind"] != "trace":
@@ -351,9 +362,7 @@ def confirm(ctx, failure, trace_module, sigfn):
     h = hashlib.sha1(failure["sig"].encode()).hexdigest()[:10]
     inp = os.path.join(ctx.dir, "confirm-%s.in.ndjson" % h)
     outp = os.path.join(ctx.dir, "confirm-%s.out.ndjson" % h)
-    with open(inp, "w") as f:
-        for e in failure["history"]:
-            f.write(json.dumps(e) + "\n")
+    write_history_twice(inp, failure["history"])
     rc, o = sh([BIN, "replay", ctx.pid, "-in", inp, "-out", outp], timeout=600)
     if rc != 0:
         raise Broken("replay failed: " + o[-2000:])
